@@ -63,12 +63,12 @@ func (vc *VC) freshResult(f *Frame, results *types.Tuple, name string) Val {
 		return Val{}
 	case 1:
 		v := vc.freshVal("ret:"+name, results.At(0).Type())
-		f.assume(vc.te.typeInv(results.At(0).Type(), v.t, 0))
+		f.assume(f.tinv(results.At(0).Type(), v.t))
 		return v
 	}
 	v := vc.freshVal("ret:"+name, results)
 	for i := range v.tup {
-		f.assume(vc.te.typeInv(v.tup[i].typ, v.tup[i].t, 0))
+		f.assume(f.tinv(v.tup[i].typ, v.tup[i].t))
 	}
 	return v
 }
@@ -214,17 +214,14 @@ func (f *Frame) appendOp(c *ssa.CallCommon, pos token.Pos) Val {
 	n = vc.sc.define("app.n", "Int", n)
 	newLen := vc.sc.define("app.len", "Int", app("+", ln, n))
 	inplace := vc.sc.define("app.inplace", "Bool", app("<=", newLen, cp))
-	fresh := vc.sc.freshConst("app.arr", "Int")
-	f.assume(app(">", fresh, "0"))
-	for _, o := range vc.allocs {
-		f.assume(not(eq(fresh, o)))
-	}
-	vc.allocs = append(vc.allocs, fresh)
+	fresh := f.freshRef("app.arr")
 	ncap := vc.sc.freshConst("app.cap", "Int")
 	f.assume(app(">=", ncap, newLen))
 	// n == 0 and nil slice: Go returns the original slice
-	resArr := ite(inplace, arr, fresh)
-	resOff := ite(inplace, off, "0")
+	// declared constants (not macros) so that quantifier patterns below stay free of ite
+	resArr := vc.sc.freshConst("app.resArr", "Int")
+	resOff := vc.sc.freshConst("app.resOff", "Int")
+	vc.sc.assume(and(eq(resArr, ite(inplace, arr, fresh)), eq(resOff, ite(inplace, off, "0"))))
 	resCap := ite(inplace, cp, ncap)
 	res := vc.sc.define("app.res", sortSlice, app("mk_slice", resArr, resOff, newLen, resCap))
 	if isStruct(et) {
@@ -268,7 +265,7 @@ func (f *Frame) appendOp(c *ssa.CallCommon, pos token.Pos) Val {
 				vc.note("append of structs with nested structs in %s: nested leaves unconstrained", f.fn)
 			}
 		}
-		f.assume(te.typeInv(c.Args[0].Type(), res, 0))
+		f.assume(f.tinv(c.Args[0].Type(), res))
 		return Val{t: res, typ: c.Args[0].Type()}
 	}
 	l, li := locElem(et)
@@ -276,34 +273,34 @@ func (f *Frame) appendOp(c *ssa.CallCommon, pos token.Pos) Val {
 	h0 := vc.he.get(f.cur, l, srt)
 	esrt := te.sortOf(et)
 	rowSort := "(Array Int " + esrt + ")"
-	// new row of the result array
+	// new row of the result array (absolute indices k)
 	row := vc.sc.freshConst("app.row", rowSort)
-	base := ite(inplace, app("select", h0, arr), row)
-	_ = base
-	// contents: prefix preserved, new elements from x
-	srcRow := app("select", h0, arr)
-	f.assume(fmt.Sprintf("(forall ((i Int)) (! (=> (and (<= 0 i) (< i %s)) (= (select %s (+ %s i)) (select %s (+ %s i)))) :pattern ((select %s (+ %s i)))))",
-		ln, row, resOff, srcRow, off, row, resOff))
-	// in place: everything outside [off+ln, off+newLen) is preserved
-	f.assume(implies(inplace, fmt.Sprintf("(forall ((i Int)) (! (=> (or (< i (+ %s %s)) (>= i (+ %s %s))) (= (select %s i) (select %s i))) :pattern ((select %s i))))",
+	srcRow := vc.sc.define("app.src", rowSort, app("select", h0, arr))
+	d := vc.sc.define("app.shift", "Int", app("-", off, resOff)) // source index = k + d
+	// prefix preserved
+	f.assume(fmt.Sprintf("(forall ((k Int)) (! (=> (and (<= %s k) (< k (+ %s %s))) (= (select %s k) (select %s (+ k %s)))) :pattern ((select %s k))))",
+		resOff, resOff, ln, row, srcRow, d, row))
+	// in place: everything outside the appended range is preserved
+	f.assume(implies(inplace, fmt.Sprintf("(forall ((k Int)) (! (=> (or (< k (+ %s %s)) (>= k (+ %s %s))) (= (select %s k) (select %s k))) :pattern ((select %s k))))",
 		off, ln, off, newLen, row, srcRow, row)))
+	start := vc.sc.define("app.start", "Int", app("+", resOff, ln))
 	if xIsStr {
-		f.assume(fmt.Sprintf("(forall ((j Int)) (! (=> (and (<= 0 j) (< j %s)) (= (select %s (+ %s %s j)) (str.to_code (str.at %s j)))) :pattern ((select %s (+ %s %s j)))))",
-			n, row, resOff, ln, x.t, row, resOff, ln))
+		f.assume(fmt.Sprintf("(forall ((k Int)) (! (=> (and (<= %s k) (< k (+ %s %s))) (= (select %s k) (str.to_code (str.at %s (- k %s))))) :pattern ((select %s k))))",
+			start, start, n, row, x.t, start, row))
 	} else {
 		xarr, xoff, _, _ := sliceParts(x.t)
-		xRow := app("select", h0, xarr)
-		f.assume(fmt.Sprintf("(forall ((j Int)) (! (=> (and (<= 0 j) (< j %s)) (= (select %s (+ %s %s j)) (select %s (+ %s j)))) :pattern ((select %s (+ %s %s j)))))",
-			n, row, resOff, ln, xRow, xoff, row, resOff, ln))
+		xRow := vc.sc.define("app.xrow", rowSort, app("select", h0, xarr))
+		f.assume(fmt.Sprintf("(forall ((k Int)) (! (=> (and (<= %s k) (< k (+ %s %s))) (= (select %s k) (select %s (+ (- k %s) %s)))) :pattern ((select %s k))))",
+			start, start, n, row, xRow, start, xoff, row))
 		// quantifier-free instances for the first two appended elements (the common cases)
-		f.assume(implies(app(">=", n, "1"), eq(app("select", row, app("+", resOff, ln)), app("select", xRow, xoff))))
-		f.assume(implies(app(">=", n, "2"), eq(app("select", row, app("+", resOff, ln, "1")), app("select", xRow, app("+", xoff, "1")))))
+		f.assume(implies(app(">=", n, "1"), eq(app("select", row, start), app("select", xRow, xoff))))
+		f.assume(implies(app(">=", n, "2"), eq(app("select", row, app("+", start, "1")), app("select", xRow, app("+", xoff, "1")))))
 	}
 	// quantifier-free instances of the prefix for the first two elements
 	f.assume(implies(app(">=", ln, "1"), eq(app("select", row, resOff), app("select", srcRow, off))))
 	f.assume(implies(app(">=", ln, "2"), eq(app("select", row, app("+", resOff, "1")), app("select", srcRow, app("+", off, "1")))))
 	vc.he.set(f.cur, l, srt, app("store", h0, resArr, row))
-	f.assume(te.typeInv(c.Args[0].Type(), res, 0))
+	f.assume(f.tinv(c.Args[0].Type(), res))
 	return Val{t: res, typ: c.Args[0].Type()}
 }
 
